@@ -301,3 +301,39 @@ func RunReduceStream(r Reducer, p Params, script [][]Step, expired bool) Session
 	s.Ledger = ledgers(src)
 	return s
 }
+
+// ReplayExact performs exactly the consumer calls of a behaviour exported from spec/seq/Pull.tla
+// (one per entry of expired) and returns what the code did, for a call-by-call comparison.
+func ReplayExact(c Comb, p Params, script [][]Step, expired []bool) Session {
+	s := base("stream", c, p, script)
+	src := mkSrcs(script)
+	p.Fired = &s.CbFired
+	dead, cancel := context.WithCancel(context.Background())
+	cancel()
+	s.Panic = try(func() {
+		st := c.S(src, p)
+		for _, x := range expired {
+			ctx := context.Background()
+			call := Call{V: []int{}}
+			if x {
+				ctx = dead
+				call.Ctx = 1
+			}
+			v, err := st.Next(ctx)
+			switch {
+			case err == nil:
+				call.K, call.V = 0, v
+			case err == stream.End:
+				call.K = 1
+			default:
+				call.K, call.E = 2, ErrID(err)
+			}
+			call.T = taken(src)
+			s.Calls = append(s.Calls, call)
+		}
+		st.Close()
+		s.Closed = 1
+	})
+	s.Ledger = ledgers(src)
+	return s
+}
